@@ -10,7 +10,7 @@ import ast
 import z3
 
 from pyvc import source
-from pyvc.engine import Obj, Builtin, Env, Func, PyExc, Namespace, Unsupported, NotImplementedVal
+from pyvc.engine import Obj, Builtin, Env, Func, PyExc, Namespace, Unsupported, NotImplementedVal, z3_of
 from pyvc.source import BuiltinClass
 from pyvc.verify import Unit, run_target, Outcome
 from pyvc.world import World
@@ -213,7 +213,87 @@ def u_order_lemma(I):
     return {'inputs': {}}
 
 
+def u_include_loop(I):
+    """the include statement of GroupLibrary._do_load (extracted mechanically: `for include_path in lib_data.include:`), for ANY number of includes:
+    every listed file is loaded exactly once, in file order, relative to the directory of the including file and with the scheme of the including
+    library, and merged into the new library by Update WITHOUT overwrite (callee contracts: GroupLibrary._Load - which is _do_load again, its own
+    contract - and GroupLibrary.Update, proved above).  With the order lemma this is the order-free, nesting-free union."""
+    from pyvc.engine import SymSeq
+    from pyvc import loops
+    ctx = I.ctx
+    W_ = I.world
+    m, c, fn = source.find_function(LIB, 'GroupLibrary._do_load')
+    hits = [n_ for n_ in ast.walk(fn) if isinstance(n_, ast.For) and isinstance(n_.target, ast.Name) and n_.target.id == 'include_path'
+            and isinstance(n_.iter, ast.Attribute) and n_.iter.attr == 'include']
+    if len(hits) != 1:
+        raise Unsupported('_do_load: the statement `for include_path in <data>.include:` was not found exactly once (contract out of date)')
+    stmt = hits[0]
+    SS, IS_ = z3.StringSort(), z3.IntSort()
+    Inc = z3.Function('IncludeName', IS_, SS)
+    Join = z3.Function('PathJoin', SS, SS, SS)
+    LoadId = z3.Function('LibraryLoadedFrom', SS, IS_)
+    n = ctx.fresh('n_includes', 'int')
+    ctx.assume(n >= 0)
+    includes = SymSeq(n, lambda i: Inc(i), 'lib_data.include')
+    base = ctx.fresh('base_path', 'str')
+    scheme = Obj(BuiltinClass('AnyScheme'), {}, 'param')
+    LibC = BuiltinClass('AbsLibrary')
+    new_lib = Obj(LibC, {'id': ctx.fresh('new_lib', 'int'), 'merged': z3.IntVal(0)}, 'param')
+    state = {'merged': z3.IntVal(0)}
+
+    def load(I_, a, k):
+        # cls._Load(path, scheme)
+        if len(a) != 3 or k:
+            raise Unsupported('_Load called with other arguments than (path, scheme)')
+        ctx.oblige('an included file is loaded with the scheme of the including library', z3.BoolVal(a[2] is scheme), site='_Load')
+        return Obj(LibC, {'id': LoadId(z3_of(a[1])), 'path': z3_of(a[1])}, 'fresh')
+    W_.contracts[(LIB, 'GroupLibrary._Load')] = load
+
+    def upd(I_, o_, name):
+        if name != 'Update':
+            return NotImplementedVal
+
+        def f(I2, a, k):
+            j = state['merged']
+            ok = len(a) == 1 and isinstance(a[0], Obj) and a[0].cls is LibC and 'path' in a[0].fields
+            ctx.oblige('the new library is updated with a library loaded from an include', z3.BoolVal(bool(ok and o_ is new_lib)), site='Update')
+            if ok:
+                ctx.oblige('... the next one in file order, found relative to the directory of the including file', a[0].fields['path'] == Join(base, Inc(j)), site='Update')
+            ow = k.get('overwrite', False)
+            ctx.oblige('an include is merged WITHOUT overwrite (two different values for one datum are rejected)', z3.BoolVal(ow is False and not [x for x in k if x != 'overwrite']), site='Update')
+            if ctx.choose([True, True], 'Update: merged / conflict') == 1:
+                raise I2.exc('ReadOnlyDataError', 'two different values for one datum')
+            state['merged'] = z3.simplify(j + 1)
+            return None
+        return Builtin('Update', f)
+    W_.abstract['AbsLibrary'] = {'attr': upd}
+    W_.abstract['LibData'] = {'attr': lambda I_, o_, nm: includes if nm == 'include' else NotImplementedVal}
+    osns = Namespace('os', {'path': Namespace('os.path', {'join': Builtin('os.path.join', lambda I_, a, k: Join(z3_of(a[0]), z3_of(a[1])) if len(a) == 2 else _unsupported_join())})})
+    ordinal = W_.loop_ordinal(fn, stmt)
+    W_.loop_specs[(LIB, 'GroupLibrary._do_load', ordinal)] = loops.for_rule(
+        'includes',
+        lambda I_, j, env_, it: (state.__setitem__('merged', j), env_.local.pop('include_path', None)),
+        lambda I_, j, env_, it: [('after j includes exactly j libraries have been merged', state['merged'] == j)])
+    env = Env({'lib_data': Obj(BuiltinClass('LibData'), {}, 'param'), 'new_lib': new_lib, 'cls': c, 'base_path': base, 'scheme': scheme, 'os': osns},
+              Func(fn, m, c, None, 'GroupLibrary._do_load'), None, m, set())
+    try:
+        I.exec(stmt, env)
+        out = Outcome('return', None)
+    except PyExc as e:
+        if e.obj.cls.name in ('NameError', 'UnboundLocalError'):
+            raise Unsupported('extracted statement reads a variable defined outside it (%s)' % (e.obj.fields.get('args'),))
+        out = Outcome('raise', e.obj)
+    check_outcome(I, out, raises={'ReadOnlyDataError': z3.BoolVal(True)}, returns=lambda r: [('every include has been merged, each exactly once', state['merged'] == n)]) if out.kind == 'raise' else \
+        check_outcome(I, out, raises={}, returns=lambda r: [('every include has been merged, each exactly once', state['merged'] == n)])
+    return {'inputs': {}}
+
+
+def _unsupported_join():
+    raise Unsupported('os.path.join with other than two parts')
+
+
 UNITS = [
+    Unit('GroupLibrary._do_load[include loop, any number of includes]', (LIB, 'GroupLibrary._do_load'), u_include_loop),
     Unit('GroupLibrary.Update', (LIB, 'GroupLibrary.Update'), C15.u_update_frame),
     Unit('GroupLibrary.Update[two uncertainty blocks]', (LIB, 'GroupLibrary.Update'), u_update_two_uq),
     Unit('GroupLibrary._do_load[groups loop: duplicate spellings]', (LIB, 'GroupLibrary._do_load'), u_read_groups('groups'), replay_empty_entry),
